@@ -276,6 +276,7 @@ type qDevice struct {
 //	q=9  User { name devices(order: {year: ASC}) { model year } }         ordered children, no filter
 //	q=10 Device(filter: {year: {_gt: c}, owner: {age: {_gt: c}}}) { model }   own condition and a condition on the parent
 //	q=11 Device(order: {owner: {age: ASC}}) { model owner { age } }       children ordered by a field of their parent
+//	q=12 User(filter: {devices: {year: {_gt: c}}}) { name _count(devices: {filter: {model: {_eq: "good"}}}) }
 //
 // idx: bit 0 = secondary index on Device.year, bit 1 = secondary index on User.age
 func VerifH_C09_OneToMany() {
@@ -321,7 +322,7 @@ func VerifH_C09_OneToMany() {
 	case 1:
 		sel = &request.Select{Field: request.Field{Name: "Device"}, ChildSelect: request.ChildSelect{Fields: []request.Selection{
 			qField("model"), &request.Select{Field: request.Field{Name: "owner"}, ChildSelect: request.ChildSelect{Fields: []request.Selection{qField("name")}}}}}}
-	case 2, 3, 4, 6, 7, 8:
+	case 2, 3, 4, 6, 7, 8, 12:
 		cond := yearGt
 		if q == 3 {
 			cond = map[string]any{"year": map[string]any{"_gt": c}, "model": map[string]any{"_eq": "good"}}
@@ -336,6 +337,10 @@ func VerifH_C09_OneToMany() {
 		}
 		if q == 7 {
 			fields = append(fields, &request.Aggregate{Field: request.Field{Name: request.CountFieldName}, Targets: []*request.AggregateTarget{{HostName: "devices"}}})
+		}
+		if q == 12 {
+			fields = append(fields, &request.Aggregate{Field: request.Field{Name: request.CountFieldName}, Targets: []*request.AggregateTarget{{HostName: "devices",
+				Filterable: request.Filterable{Filter: immutable.Some(request.Filter{Conditions: map[string]any{"model": map[string]any{"_eq": "good"}}})}}}})
 		}
 		sel = &request.Select{Field: request.Field{Name: "User"}, ChildSelect: request.ChildSelect{Fields: fields},
 			Filterable: request.Filterable{Filter: immutable.Some(request.Filter{Conditions: map[string]any{"devices": cond}})}}
@@ -368,7 +373,7 @@ func VerifH_C09_OneToMany() {
 		return ok
 	}
 	switch q {
-	case 0, 2, 3, 4, 6, 7, 8, 9:
+	case 0, 2, 3, 4, 6, 7, 8, 9, 12:
 		// expected parents
 		var want [2]bool
 		for u := range qUserIDs {
@@ -393,10 +398,10 @@ func VerifH_C09_OneToMany() {
 				continue
 			}
 			seen[u]++
-			if q == 7 {
+			if q == 7 || q == 12 {
 				wantKids := 0
 				for d := range devs {
-					if devs[d].owner == u {
+					if devs[d].owner == u && (q == 7 || devs[d].model == 0) {
 						wantKids++
 					}
 				}
